@@ -45,6 +45,7 @@ class State:
     mem_seen = 0
     mem_fired = 0
     armed = False
+    budget = 250000  # delivery points after which a limited call is killed anyway (the virtual time limit)
 
 
 def _point(code):
@@ -53,7 +54,7 @@ def _point(code):
         return
     c = st[-1]
     c.n += 1
-    if c.kill_at is not None and c.n == c.kill_at and not c.killed:
+    if (c.kill_at is not None and c.n == c.kill_at and not c.killed) or (c.n >= State.budget and not c.killed):
         c.killed = True
         e = Interrupt('vlimiter kill')
         c.token = e
@@ -146,7 +147,12 @@ def vlimiter(seconds, func, *args, **kwargs):
     idx = len(State.calls) + len(State.stack)
     fr = sys._getframe(1)
     site = f'{os.path.basename(fr.f_code.co_filename)}:{fr.f_code.co_name}:{getattr(func, "__name__", "?")}'
-    kill_at = State.plan(idx, site) if State.plan is not None else None
+    action = State.plan(idx, site) if State.plan is not None else None
+    if isinstance(action, tuple) and action[0] == 'raise':
+        # the limited function "raises at once": run_timeout re-raises a function's own exception
+        State.calls.append((idx, site, 0, 'injected:' + getattr(action[1], '__name__', 'exception')))
+        raise action[1]('injected candidate rejection')
+    kill_at = action
     c = _Call(idx, site, kill_at)
     State.stack.append(c)
     State.back = False
